@@ -46,6 +46,7 @@ def main(argv=None):
     ap.add_argument("--update-ledger", action="store_true")
     ap.add_argument("--no-evidence", action="store_true")
     ap.add_argument("-v", action="store_true")
+    ap.add_argument("--timeout", type=int, default=0)
     a = ap.parse_args(argv)
     seed = int(os.environ.get("VERIF_SEED", "0") or 0)
     t0 = time.time()
@@ -71,7 +72,7 @@ def main(argv=None):
     if not tasks:
         print(f"UNDECIDED property={prop}: no contracts / zero obligations generated")
         return 2
-    results = run_pool(tasks, a.jobs, timeout=(900 if a.tier == "quick" else 7200))
+    results = run_pool(tasks, a.jobs, timeout=a.timeout or (900 if a.tier == "quick" else 7200))
     code = report(prop, a, seed, results, time.time() - t0)
     return code
 
